@@ -49,10 +49,84 @@ class FnCtx:
             if isinstance(node, ast.For):
                 pass
         # ordinals in source order
-        fors = [nd for nd in ast.walk(fi.node) if isinstance(nd, ast.For)]
+        fors = [nd for nd in ast.walk(fi.node) if isinstance(nd, ast.For) and not is_accumulator_loop(fi.node, nd)]
         fors.sort(key=lambda nd: (nd.lineno, nd.col_offset))
         for i, nd in enumerate(fors):
             self.loop_ord[id(nd)] = i
+
+
+def is_accumulator_loop(fn_node, stmt):
+    """accumulator pattern AND the accumulator is initialised empty (`acc = []`, `list()`, `set()`) earlier in the same block with
+    nothing in between mentioning it: only then is the loop executed as a comprehension and left out of the loop numbering"""
+    m = acc_pattern(stmt)
+    if m is None:
+        return False
+    acc = m[0]['acc']
+    for nd in ast.walk(fn_node):
+        for field in ('body', 'orelse', 'finalbody'):
+            blk = getattr(nd, field, None)
+            if isinstance(blk, list) and any(x is stmt for x in blk):
+                i = [j for j, x in enumerate(blk) if x is stmt][0]
+                for prev in reversed(blk[:i]):
+                    if (isinstance(prev, ast.Assign) and len(prev.targets) == 1 and isinstance(prev.targets[0], ast.Name)
+                            and prev.targets[0].id == acc):
+                        v = prev.value
+                        empty = (isinstance(v, ast.List) and not v.elts) or (
+                            isinstance(v, ast.Call) and isinstance(v.func, ast.Name) and v.func.id in ('list', 'set') and not v.args and not v.keywords)
+                        return bool(empty)
+                    if any(isinstance(x, ast.Name) and x.id == acc for x in ast.walk(prev)):
+                        return False
+                return False
+    return False
+
+
+def acc_pattern(stmt):
+    """static part of the accumulator-loop pattern (see Executor.accumulator_loop): -> (found, conds, subst) or None"""
+    import copy as _copy
+    if stmt.orelse:
+        return None
+    subst = {}
+
+    class Sub(ast.NodeTransformer):
+        def visit_Name(self, node):
+            if isinstance(node.ctx, ast.Load) and node.id in subst:
+                return _copy.deepcopy(subst[node.id])
+            return node
+
+    def sub(e):
+        return Sub().visit(_copy.deepcopy(e))
+    conds = []
+    found = {}
+
+    def walk(stmts):
+        for i, s in enumerate(stmts):
+            last = i == len(stmts) - 1
+            if isinstance(s, ast.Assign) and len(s.targets) == 1 and isinstance(s.targets[0], ast.Name) and not last:
+                subst[s.targets[0].id] = sub(s.value)
+                continue
+            if isinstance(s, ast.If) and len(s.body) == 1 and isinstance(s.body[0], ast.Continue):
+                conds.append(ast.UnaryOp(op=ast.Not(), operand=sub(s.test)))
+                if s.orelse:
+                    return last and walk(s.orelse)
+                continue
+            if isinstance(s, ast.If) and last and not s.orelse:
+                conds.append(sub(s.test))
+                return walk(s.body)
+            if isinstance(s, ast.If) and last and len(s.orelse) == 1 and isinstance(s.orelse[0], ast.Continue):
+                conds.append(sub(s.test))
+                return walk(s.body)
+            if (last and isinstance(s, ast.Expr) and isinstance(s.value, ast.Call) and isinstance(s.value.func, ast.Attribute)
+                    and s.value.func.attr in ('append', 'add') and isinstance(s.value.func.value, ast.Name)
+                    and len(s.value.args) == 1 and not s.value.keywords):
+                found['acc'] = s.value.func.value.id
+                found['kind'] = s.value.func.attr
+                found['val'] = sub(s.value.args[0])
+                return True
+            return False
+        return False
+    if not walk(stmt.body):
+        return None
+    return found, conds, subst
 
 
 def assigned_names(stmts):
@@ -567,7 +641,61 @@ class Executor:
             states = nxt
         return states + done
 
+    # --- accumulator loops: `acc = []` ... `for x in xs: [tmp = e;] [if c: continue] [if c:] acc.append(e)` is the comprehension
+    # `acc = [e for x in xs if ...]` written out; it is executed as that comprehension (no invariant needed).  Conditions:
+    # acc is empty at loop entry, the body is straight-line with pure temporaries, exactly one append/add at the end of the (nested)
+    # body, and neither the loop variable nor a temporary is read after the loop.
+    def accumulator_loop(self, stmt, st, fx):
+        m = acc_pattern(stmt)
+        if m is None:
+            return None
+        found, conds, subst = m
+        import copy as _copy
+        acc = found['acc']
+        cur = st.locals.get(acc)
+        if found['kind'] == 'append':
+            if not (isinstance(cur, SList) and cur.concrete is not None and len(cur.concrete) == 0):
+                raise ToolLimit('accumulator loop over a list that is not empty at loop entry')
+        else:
+            if not (isinstance(cur, SSet) and cur.base.concrete is not None and len(cur.base.concrete) == 0):
+                raise ToolLimit('accumulator loop over a set that is not empty at loop entry')
+        bound = {n.id for n in ast.walk(stmt.target) if isinstance(n, ast.Name)} | set(subst)
+        if acc in bound:
+            raise ToolLimit('accumulator loop: accumulator is also a loop variable')
+        end = getattr(stmt, 'end_lineno', stmt.lineno)
+        # later reads of the loop variable / temporaries are fine only where a later loop or comprehension binds the name again
+        rebound = set()
+        for nd in ast.walk(fx.fi.node):
+            tgt = None
+            if isinstance(nd, ast.For) and nd is not stmt:
+                tgt, scope = nd.target, nd.body
+            elif isinstance(nd, (ast.ListComp, ast.SetComp, ast.GeneratorExp, ast.DictComp)):
+                tgt, scope = nd.generators[0].target, [nd]
+            if tgt is None:
+                continue
+            names = {x.id for x in ast.walk(tgt) if isinstance(x, ast.Name)}
+            for part in scope:
+                for x in ast.walk(part):
+                    if isinstance(x, ast.Name) and x.id in names and not (isinstance(nd, (ast.ListComp, ast.SetComp, ast.GeneratorExp, ast.DictComp))
+                                                                          and any(x is y for y in ast.walk(nd.generators[0].iter))):
+                        rebound.add(id(x))
+        for n in ast.walk(fx.fi.node):
+            if isinstance(n, ast.Name) and isinstance(n.ctx, ast.Load) and n.id in bound and n.lineno > end and id(n) not in rebound:
+                raise ToolLimit('accumulator loop: %s is read after the loop' % n.id)
+        gen = ast.comprehension(target=_copy.deepcopy(stmt.target), iter=_copy.deepcopy(stmt.iter), ifs=conds, is_async=0)
+        for n in ast.walk(gen.target):
+            if isinstance(n, ast.Name):
+                n.ctx = ast.Store()
+        comp = (ast.ListComp if found['kind'] == 'append' else ast.SetComp)(elt=found['val'], generators=[gen])
+        new = ast.Assign(targets=[ast.Name(id=acc, ctx=ast.Store())], value=comp)
+        ast.copy_location(new, stmt)
+        ast.fix_missing_locations(new)
+        st.trace.append('accloop@L%d' % stmt.lineno)
+        return self.exec_stmt(new, st, fx)
+
     def invariant_loop(self, stmt, st, seq, fx):
+        if id(stmt) not in fx.loop_ord:      # an accumulator loop (not numbered: loop specs are bound to the other loops)
+            return self.accumulator_loop(stmt, st, fx)
         if not fx.top:
             raise ToolLimit('symbolic loop inside transparent function %s (needs an opaque contract)' % fx.fi.qualname)
         ordinal = fx.loop_ord[id(stmt)]
@@ -608,8 +736,13 @@ class Executor:
                 if n in s.locals:
                     ht = getattr(inv, 'havoc_types', {})
                     kind = ht.get(n)
+                    # wildcard keys bind by the type of the local at loop entry, not by its name (a renamed local stays bound)
                     if kind is None and isinstance(s.locals[n], SList) and '*list' in ht:
                         kind = ht['*list']
+                    if kind is None and isinstance(s.locals[n], SDict) and '*dict' in ht:
+                        kind = ht['*dict']
+                    if kind is None and isinstance(s.locals[n], (SInt, SReal)) and '*num' in ht:
+                        kind = ht['*num']
                     s.locals[n] = self.havoc_value(s.locals[n], n, kind)
             s.warns = []
             s.out = []
